@@ -102,3 +102,29 @@ func VerifC07StragglerHalfOpen() {
 	verifrt.WaitAll()
 	verifrt.Assert(cb.State() == StateClosed, "the successful trial closes the breaker")
 }
+
+// VerifC07OverlappingFailures: failures of requests that overlap in time all
+// count. The breaker is closed, optionally with an old failure whose counting
+// window has expired; then failure_threshold (2) requests are admitted one after
+// the other and fail one after the other (admit A, admit B, A fails, B fails):
+// the breaker is open afterwards.
+func VerifC07OverlappingFailures() {
+	cb := NewCircuitBreaker(Settings{Name: "verif", MaxRequests: 1, Interval: time.Minute, Timeout: time.Hour, FailureThreshold: 2, SuccessThreshold: 1})
+	if verifrt.Bool("anOldFailureWhoseWindowHasExpired") {
+		verifExec(cb, func() error { return verifErrBoom })
+		verifrt.Advance(2 * time.Minute)
+	}
+	if verifrt.Bool("aSuccessBefore") {
+		verifExec(cb, func() error { return nil })
+	}
+	var release int32
+	verifrt.Go(func() { verifExec(cb, func() error { verifrt.WaitFor(&release); return verifErrBoom }) })
+	verifrt.Settle() // A is admitted and in flight
+	verifExec(cb, func() error { // B is admitted while A is in flight; A fails first, then B
+		atomic.StoreInt32(&release, 1)
+		verifrt.Settle()
+		return verifErrBoom
+	})
+	verifrt.WaitAll()
+	verifrt.Assert(cb.State() == StateOpen, "failure_threshold failed requests with no gap longer than interval open the breaker, also when the requests overlap in time")
+}
